@@ -70,7 +70,8 @@ class GeneticAlgorithmOptimizer(EvolutionaryAlgorithmOptimizer):
 
     def _crossover(self):
         fittest_parents = self.fittest_parents()
-        selected_parents = random.sample(fittest_parents, self.n_parents)
+        n_parents = min(self.n_parents, len(fittest_parents))
+        selected_parents = random.sample(fittest_parents, n_parents)
 
         for _ in range(self.offspring):
             parent_pos_l = [parent.pos_new for parent in selected_parents]
